@@ -102,7 +102,7 @@ type monC05 struct {
 	seenOnConn map[string]int  // topic -> first connection id (this incarnation) with the complete packet
 	seenGen    map[string]int  // topic -> generation of that connection
 	relSeen    map[uint16]int  // PUBREL id -> first connection id
-	newOnConn  map[int]string  // conn id -> description of the first never-before-seen packet
+	relOnConn  map[[2]int]bool // (conn id, PUBREL id) seen
 	lastRelSeq int
 	relCount   int
 	lastClose  [3]int
@@ -110,7 +110,7 @@ type monC05 struct {
 
 func (m *monC05) init() {
 	if m.seenOnConn == nil {
-		m.seenOnConn, m.seenGen, m.relSeen, m.newOnConn = map[string]int{}, map[string]int{}, map[uint16]int{}, map[int]string{}
+		m.seenOnConn, m.seenGen, m.relSeen, m.relOnConn = map[string]int{}, map[string]int{}, map[uint16]int{}, map[[2]int]bool{}
 	}
 }
 
@@ -173,7 +173,16 @@ func (m *monC05) Wire(f *Flow, c *Conn, p *WirePkt) {
 			m.relCount++
 			return
 		}
-		_ = first
+		// the broker answers each PUBLISH with one PUBREC and the resend
+		// writes each stored PUBREL once: a second PUBREL on one
+		// connection is never called for
+		if first == c.id || m.relOnConn[[2]int{c.id, int(p.ID)}] {
+			w.Violate("C05", "pubrel-twice-on-connection", "wire", "conn%d carries PUBREL %#04x twice", c.id, p.ID)
+		}
+		if f.OnlineConn == c.id {
+			w.Violate("C05", "resend-after-online", "pubrel", "conn%d: retransmission of PUBREL %#04x written after Online was signalled for this connection", c.id, p.ID)
+		}
+		m.relOnConn[[2]int{c.id, int(p.ID)}] = true
 	}
 }
 
@@ -752,4 +761,272 @@ func sortedKeys(m map[string]int) []string {
 	}
 	sort.Strings(keys)
 	return keys
+}
+
+// ---- C06: inbound messages byte-exact under any fragmentation ----
+
+// monC06 is only meaningful in runs without connection loss: the returned
+// sequence must equal the sent sequence and no error is expected at all.
+type monC06 struct {
+	NopMonitor
+}
+
+func (m *monC06) Recv(f *Flow, r *Recv) {
+	if !f.StrictInbound {
+		return
+	}
+	w := f.W
+	sess := w.Broker.Sessions[f.O.ClientID]
+	if sess == nil || r.Idx >= len(sess.Out) {
+		w.Violate("C06", "surplus-message", "recv", "ReadSlices returned message %d (%q) but the broker sent only %d", r.Idx, trunc(r.Topic, 32), len(sess.Out))
+		return
+	}
+	o := sess.Out[r.Idx]
+	kind := "small"
+	if r.Big {
+		kind = "big"
+	}
+	if r.Topic != o.Topic {
+		w.Violate("C06", "wrong-topic", kind, "message %d: got topic %q, the broker sent %q (q%d, %d payload bytes, read buffer %d)", r.Idx, trunc(r.Topic, 40), trunc(o.Topic, 40), o.QoS, len(o.Payload), f.O.ReadBuf)
+		return
+	}
+	if r.Big {
+		w.Probe("big_message")
+		if r.BigSize != len(o.Payload) {
+			w.Violate("C06", "wrong-size", kind, "message %d: BigMessage.Size %d, the broker sent %d payload bytes (read buffer %d, topic %d bytes, q%d)", r.Idx, r.BigSize, len(o.Payload), f.O.ReadBuf, len(o.Topic), o.QoS)
+			return
+		}
+		if r.BigRead {
+			if r.BigErr != nil {
+				w.Violate("C06", "readall-error", kind, "message %d: ReadAll failed: %v", r.Idx, r.BigErr)
+			} else if !bytes.Equal(r.Msg, o.Payload) {
+				w.Violate("C06", "wrong-content", kind, "message %d: ReadAll content differs from the %d payload bytes sent", r.Idx, len(o.Payload))
+			}
+		} else {
+			w.Probe("big_message_skipped")
+		}
+		return
+	}
+	if !bytes.Equal(r.Msg, o.Payload) {
+		w.Violate("C06", "wrong-content", kind, "message %d (%q): %d bytes returned differ from the %d payload bytes sent (read buffer %d)", r.Idx, trunc(r.Topic, 24), len(r.Msg), len(o.Payload), f.O.ReadBuf)
+	}
+}
+
+func (m *monC06) Final(f *Flow) {
+	if !f.StrictInbound {
+		return
+	}
+	w := f.W
+	if len(f.ReaderErrs) > 0 {
+		e := f.ReaderErrs[0]
+		if !errors.Is(e, mqtt.ErrClosed) && !errors.Is(e, errDead) {
+			w.Violate("C06", "unexpected-error", errKind(e), "ReadSlices failed although the stream was well-formed and every expiry saw progress: %v (read buffer %d, PauseTimeout %v)", e, f.O.ReadBuf, f.O.PauseTimeout)
+			return
+		}
+	}
+	if w.Inconcl != "" || f.QStartStep == 0 {
+		return
+	}
+	if len(f.Recvs) != f.InSent {
+		w.Violate("C06", "missing-message", "count", "the broker sent %d messages, ReadSlices returned %d", f.InSent, len(f.Recvs))
+	}
+	if sess := w.Broker.Sessions[f.O.ClientID]; sess != nil {
+		for _, o := range sess.Out {
+			if (o.QoS == 1 && o.PubackN != 1) || (o.QoS == 2 && (o.PubrecN != 1 || o.PubcompN != 1)) {
+				w.Violate("C06", "acknowledgements", fmt.Sprintf("q%d", o.QoS), "message %q (id %#04x): PUBACK %d PUBREC %d PUBCOMP %d", trunc(o.Topic, 24), o.ID, o.PubackN, o.PubrecN, o.PubcompN)
+				break
+			}
+		}
+	}
+}
+
+// errKind is a coarse, stable discriminator of an error text.
+func errKind(e error) string {
+	s := e.Error()
+	switch {
+	case strings.Contains(s, "protocol violation"):
+		return "protocol-reset"
+	case strings.Contains(s, "timeout") || strings.Contains(s, "deadline"):
+		return "timeout"
+	case strings.Contains(s, "EOF"):
+		return "eof"
+	case strings.Contains(s, "persist") || strings.Contains(s, "storage"):
+		return "storage"
+	}
+	return "other"
+}
+
+// ---- C07: acknowledgements only after the application took ownership ----
+
+type monC07 struct {
+	NopMonitor
+}
+
+func (m *monC07) Wire(f *Flow, c *Conn, p *WirePkt) {
+	if p.Type != PUBACK && p.Type != PUBREC {
+		return
+	}
+	w := f.W
+	want := byte(1)
+	if p.Type == PUBREC {
+		want = 2
+	}
+	// the latest return of a message with that identifier
+	var r *Recv
+	for i := len(f.Recvs) - 1; i >= 0; i-- {
+		x := f.Recvs[i]
+		if x.Out != nil && x.Out.ID == p.ID && x.Out.QoS == want {
+			r = x
+			break
+		}
+	}
+	if r == nil {
+		// never returned: only a broker identifier the client has no
+		// business acknowledging
+		sent := false
+		if sess := w.Broker.Sessions[f.O.ClientID]; sess != nil {
+			for _, o := range sess.Out {
+				if o.ID == p.ID && o.QoS == want && o.Sends > 0 {
+					sent = true
+				}
+			}
+		}
+		what := "unsolicited"
+		if sent {
+			what = "undelivered"
+		}
+		w.Violate("C07", "ack-without-return", what+"-"+typeNames[p.Type], "conn%d: %s written but no message with that identifier was ever returned by ReadSlices", c.id, p.String())
+		return
+	}
+	first := c.firstByteStep(p.Off)
+	if r.NextInvoke == 0 || r.NextInvoke > first {
+		w.Violate("C07", "ack-before-ownership", typeNames[p.Type], "conn%d: %s written at step %d while the application still held message %d (returned at step %d, next ReadSlices at step %d)", c.id, p.String(), first, r.Idx, r.Step, r.NextInvoke)
+		return
+	}
+	if c.id != r.Conn {
+		w.Probe("ack_on_new_connection")
+	}
+	w.Probe("ack_after_ownership")
+}
+
+func (m *monC07) Final(f *Flow) {
+	w := f.W
+	if w.Inconcl != "" || f.QStartStep == 0 {
+		return
+	}
+	for _, r := range f.Recvs {
+		if r.Out == nil || r.Out.QoS == 0 || r.Gen != w.Gen {
+			continue
+		}
+		if (r.Out.QoS == 1 && r.Out.PubackN == 0) || (r.Out.QoS == 2 && r.Out.PubrecN == 0) {
+			w.Violate("C07", "never-acknowledged", fmt.Sprintf("q%d%s", r.Out.QoS, f.stuckWhere()), "message %d (%q, id %#04x) was returned at step %d but never acknowledged; the quiescence phase ended after %v", r.Idx, trunc(r.Topic, 24), r.Out.ID, r.Step, f.S.Now()-f.QStartTime)
+			return
+		}
+	}
+}
+
+// ---- C04: exactly-once reception ----
+
+type monC04 struct {
+	NopMonitor
+}
+
+func (m *monC04) Recv(f *Flow, r *Recv) {
+	if r.Out == nil || r.Out.QoS != 2 {
+		return
+	}
+	w := f.W
+	if st, owned := f.Owned[r.Out.ID]; owned {
+		w.Violate("C04", "returned-while-owned", "recv", "ReadSlices returned message %d (%q, id %#04x) again although the application owns it since step %d (marker stored) and no PUBREL ended the cycle", r.Idx, trunc(r.Topic, 24), r.Out.ID, st)
+	}
+	if r.Out.Sends > 1 {
+		w.Probe("q2_retransmission_seen")
+	}
+}
+
+func (m *monC04) Final(f *Flow) {
+	w := f.W
+	if w.Inconcl != "" || f.QStartStep == 0 {
+		return
+	}
+	sess := w.Broker.Sessions[f.O.ClientID]
+	if sess == nil {
+		return
+	}
+	for _, o := range sess.Out {
+		if o.QoS == 2 && o.Stage != 3 && o.Sends > 0 {
+			w.Violate("C04", "handshake-incomplete", fmt.Sprintf("stage%d%s", o.Stage, f.stuckWhere()), "the broker's exactly-once handshake for %q (id %#04x) is stuck at stage %d (PUBLISH sent %d times, PUBREC received %d, PUBCOMP %d) when the quiescence phase ended after %v", trunc(o.Topic, 24), o.ID, o.Stage, o.Sends, o.PubrecN, o.PubcompN, f.S.Now()-f.QStartTime)
+			return
+		}
+		if o.QoS == 2 && o.Sends > 1 && o.Stage == 3 {
+			w.Probe("q2_duplicate_completed")
+		}
+	}
+}
+
+// ---- C10: the read routine never wedges ----
+
+type monC10 struct {
+	NopMonitor
+}
+
+func (m *monC10) Final(f *Flow) {
+	w := f.W
+	o := &f.O
+	effMin := o.RWMin
+	if effMin == 0 {
+		effMin = 1e9
+	}
+	if effMin < 0 {
+		effMin = 0
+	}
+	effMax := o.RWMax
+	if effMax < effMin {
+		effMax = effMin
+	}
+	for _, b := range f.Backoffs {
+		closed := errors.Is(b.Err, mqtt.ErrClosed)
+		if b.NilCh != closed {
+			w.Violate("C10", "backoff-nil", fmt.Sprintf("nil-%v", b.NilCh), "ReadBackoff(%q) returned a nil channel: %v", shortErr(b.Err), b.NilCh)
+			continue
+		}
+		if b.NilCh {
+			continue
+		}
+		if b.Wait-b.Sched > effMax && b.Wait-b.Sched > 1e9 {
+			// one second is the library's pause for storage trouble
+			w.Violate("C10", "backoff-long", "wait", "ReadBackoff(%q) blocked for %v, ReconnectWaitMax is %v (effective %v)", shortErr(b.Err), b.Wait, o.RWMax, effMax)
+		}
+		if mqtt.IsConnectionRefused(b.Err) && (b.Wait < effMax || b.Wait-b.Sched > effMax) {
+			w.Violate("C10", "backoff-refused", "wait", "ReadBackoff for a refused connection blocked for %v, ReconnectWaitMax is %v (effective %v)", b.Wait, o.RWMax, effMax)
+		}
+		if !b.Online && !mqtt.IsConnectionRefused(b.Err) && b.Wait < effMin && w.Faults["disk_err_before_L"]+w.Faults["disk_err_before_S"]+w.Faults["disk_err_before_D"] == 0 {
+			w.Violate("C10", "backoff-short", "wait", "ReadBackoff(%q) after connection loss blocked for %v only, ReconnectWaitMin is %v (effective %v)", shortErr(b.Err), b.Wait, o.RWMin, effMin)
+		}
+		w.Probe("backoff_checked")
+	}
+	if w.Inconcl != "" || f.QStartStep == 0 || f.goalReached() {
+		return
+	}
+	// the quiescence phase ended without its goal: the read routine (or
+	// what it owes) is stuck
+	what := "other"
+	if sess := w.Broker.Sessions[o.ClientID]; sess != nil {
+		for _, m := range sess.Out {
+			if m.Stage != 3 {
+				what = "inbound"
+			}
+		}
+	}
+	for _, pb := range f.Pubs {
+		if pb.Accepted() && (!pb.ExClosed || !pb.Deleted) {
+			what = "outbound"
+		}
+	}
+	for _, r := range f.Reqs {
+		if r.Invoke != 0 && r.Ret == 0 {
+			what = "request"
+		}
+	}
+	w.Violate("C10", "wedged", what+f.stuckWhere(), "the quiescence phase ended after %v and %d steps without the client serving again (%s pending); ReadSlices invoked %d times, returned %d times, last return at step %d; reader: %s", f.S.Now()-f.QStartTime, w.Steps-f.QStartStep, what, f.RSInvokes, f.RSReturns, f.LastRSReturn, f.readerWhere())
 }
